@@ -15,6 +15,10 @@ AVarTab == << [shape |-> <<>>,              rec |-> FALSE, xsz |-> 4],    \* 0: 
               [shape |-> <<2, 1, 2, 1, 2>>, rec |-> FALSE, xsz |-> 4],    \* 6: V5
               [shape |-> <<3>>,             rec |-> TRUE,  xsz |-> 4] >>  \* 7: R1[t]
 
+(* a file with exactly one record variable (records are then not padded to 4 bytes) *)
+BVarTab == << [shape |-> <<5>>,    rec |-> FALSE, xsz |-> 4],      \* 0: V1[5]
+              [shape |-> <<3, 3>>, rec |-> TRUE,  xsz |-> 1] >>    \* 1: R2[t][3]  (1- or 2-byte type)
+
 (* all legal (start, count, stride) triples of one dimension of length n *)
 DimOpts(n) == {t \in (0..(n - 1)) \X (1..n) \X (1..2) : t[1] + (t[2] - 1) * t[3] <= n - 1}
 
@@ -32,6 +36,9 @@ Toks(r) == AsSeq([k \in 1..Len(Elems(r)) |-> tk * 10 + k])
 ANext ==
     \/ \E v \in 0..(NV - 1) : \E r \in ReqsOf(v) : BPut(r, Toks(r), ReqErr(r, FALSE)) /\ tk' = tk + 1
     \/ \E v \in 0..(NV - 1) : \E r \in ReqsOf(v) : ReqErr(r, TRUE) = "NC_NOERR" /\ BGet(r, "NC_NOERR") /\ tk' = tk
+    \* close and reopen: the logical content is what it was
+    \/ /\ Len(hist) > 0 /\ hist[Len(hist)].c # "reopen"
+       /\ UNCHANGED state /\ hist' = H([c |-> "reopen"]) /\ tk' = tk
 
 AInit == Init /\ tk = 1
 ASpec == AInit /\ [][ANext]_<<vars, tk>>
